@@ -489,6 +489,19 @@ def corpus():
     out.append(({'root': 'T', 'files': odd, 'relocate': 0, 'muts': []}, [{'gen': True}, {'opts': d, 'single': None, 'efile': True}]))
     out.append(({'root': 'T', 'files': odd, 'relocate': 0, 'muts': [['flip', 'plain.bin', 3, 1], ['flip', "'Heroes' (1977).txt", 0, 0]]},
                 [{'opts': d, 'single': None, 'efile': True}]))
+    # a recorded file replaced by the other half of the public Wang et al. MD5 collision pair (same size, same MD5, other SHA-1; six bytes
+    # differ in bit 7), time restored: ONE of the two recorded hashes still matches — the content changed all the same
+    m1 = 'd131dd02c5e6eec4693d9a0698aff95c2fcab58712467eab4004583eb8fb7f8955ad340609f4b30283e488832571415a085125e8f7cdc99fd91dbdf280373c5bd8823e3156348f5bae6dacd436c919c6dd53e2b487da03fd02396306d248cda0e99f33420f577ee8ce54b67080a80d1ec69821bcb6a8839396f9652b6ff72a70'
+    coll = [f('keys/container.bin', ['h', m1], 1_450_000_000), f('notes.txt', ['r', 61, 40], 1_350_000_000)]
+    out.append(({'root': 'T', 'files': coll, 'relocate': 0, 'muts': [['flip', 'keys/container.bin', o, 7] for o in (19, 45, 59, 83, 109, 123)]},
+                [{'opts': d, 'single': None, 'efile': True}, {'opts': [True, False, False], 'single': None, 'efile': True}]))
+    # files NAMED like the columns of the database ('path' first of all): rows like any other, never a header line
+    cols = [f('path', ['r', 71, 30], 1_410_000_000), f('md5', ['r', 72, 30], 1_410_000_100), f('sub/path', ['r', 73, 30], 1_410_000_200),
+            f('size', ['r', 74, 30], 1_410_000_300), f('zz.bin', ['r', 75, 30], 1_410_000_400)]
+    out.append(({'root': 'T', 'files': cols, 'relocate': 0, 'muts': []}, [{'gen': True}, {'opts': d, 'single': None, 'efile': True}]))
+    out.append(({'root': 'T', 'files': cols, 'relocate': 0, 'muts': [['flip', 'path', 3, 1]]}, [{'opts': d, 'single': None, 'efile': True}]))
+    out.append(({'root': 'T', 'files': cols, 'relocate': 1, 'muts': [['delete', 'path'], ['flip', 'md5', 0, 0]]},
+                [{'opts': d, 'single': None, 'efile': True}, {'opts': d, 'single': 'size', 'efile': True}]))
     # exactly 256 (and 512 = 256 deleted + 256 flipped would be too slow: 256 deleted) recorded files in error: the exit status seen by
     # the caller of the command must still be non-zero (an error COUNT used as exit status wraps to 0 modulo 256)
     many = [f('m/%03d.t' % i, ['r', 1000 + i, 3], 1_300_000_000 + i) for i in range(256)] + [f('keep.t', ['r', 7, 3], 1_200_000_000)]
